@@ -218,6 +218,12 @@ def _extract_playback_tests(out):
         body = m.group(1)
         nm = re.search(r"fn (kani_concrete_playback_\w+)\(\)", body)
         if nm:
+            # witnesses of satisfied covers are not counterexamples
+            if re.search(r"^/// Check for `cover`", body, re.M):
+                continue
+            # Kani's doc comments quote the failed condition; something on the playback path re-lexes them
+            # (`ident"` is a reserved prefix in edition 2021), so turn them into plain comments
+            body = re.sub(r"^///", "// --", body, flags=re.M)
             tests.append((nm.group(1), body))
     return tests
 
